@@ -72,6 +72,26 @@ Definition go_slice_g {A : Type} (l : list A) (lo hi : Z) : gres (list A) :=
   if (0 <=? lo) && (lo <=? hi) && (hi <=? Z.of_nat (length l))
   then GOk (firstn (Z.to_nat (hi - lo)) (skipn (Z.to_nat lo) l)) else GPanic.
 
+Definition go_make_g {A : Type} (d : A) (n : Z) : gres (list A) :=
+  if n <? 0 then GPanic else GOk (repeat d (Z.to_nat n)).
+Definition go_set_g {A : Type} (l : list A) (i : Z) (v : A) : gres (list A) :=
+  if (0 <=? i) && (i <? Z.of_nat (length l))
+  then GOk (firstn (Z.to_nat i) l ++ v :: skipn (S (Z.to_nat i)) l) else GPanic.
+
+(** [float64(x)] for a [float32] [x], on IEEE-754 bit patterns (32-bit pattern in, 64-bit pattern out):
+    exact widening - sign, exponent re-biased, fraction shifted; subnormals normalised; infinities
+    kept; a NaN keeps its payload (shifted) with the quiet bit set, as the hardware conversion does. *)
+Definition go_f32_widen (b : Z) : Z :=
+  let s := b / 2 ^ 31 in
+  let e := (b / 2 ^ 23) mod 256 in
+  let m := b mod 2 ^ 23 in
+  s * 2 ^ 63 +
+  (if e =? 255 then 2047 * 2 ^ 52 + (if m =? 0 then 0 else Z.lor (m * 2 ^ 29) (2 ^ 51))
+   else if e =? 0 then
+     (if m =? 0 then 0
+      else let k := Z.log2 m in (874 + k) * 2 ^ 52 + (m - 2 ^ k) * 2 ^ (52 - k))
+   else (e + 896) * 2 ^ 52 + m * 2 ^ 29).
+
 Definition go_zeros (n : Z) : list Z := repeat 0 (Z.to_nat n).
 
 (** [make([]T, n)] / [make([]T, n, c)] *)
